@@ -31,7 +31,7 @@ out_clean=$(run_demo); rc_clean=$?
 echo "$out_clean" | grep -q "^ok" && clean_ok=1 || clean_ok=0
 git apply $src/patch.diff
 build_ok=1; for m in . publish quic; do (cd $m && go build ./... ) >/dev/null 2>&1 || build_ok=0; done
-suite_ok=1; for m in . publish quic; do (cd $m && go test -vet=off -count=1 ./... ) >/tmp/seed/suite.log 2>&1 || suite_ok=0; done
+suite_ok=1; for m in . publish quic; do (cd $m && go test -vet=off -count=1 ./... ) >/tmp/seedverify-suite.log 2>&1 || suite_ok=0; done
 out_mut=$(run_demo)
 echo "$out_mut" | grep -q "^FAIL\|--- FAIL\|panic" && mut_fails=1 || mut_fails=0
 git checkout -q -- . && git clean -fdq
